@@ -305,13 +305,16 @@ def Fields.lookup (n : String) : Fields → Option Ty
   | .nil => none
   | .cons name ty _ rest => if n == name then some ty else rest.lookup n
 
+/-- some supplied member comes from a flattened struct and is not string-like. -/
+def flatBlocked (flat : List String) (fs : Fields) (q : List (String × String)) : Bool :=
+  q.any (fun kv => flat.contains kv.1 &&
+    (match fs.lookup kv.1 with | some t => !t.stringly | none => false))
+
 /-- `Query<T>` extraction where the members named in `flat` come from a
 flattened struct. -/
 def extractParamsFlat (flat : List String) (fs : Fields) (q : List (String × String)) :
     Except Nat (List (String × Val)) :=
-  if q.any (fun kv => flat.contains kv.1 &&
-      (match fs.lookup kv.1 with | some t => !t.stringly | none => false)) then .error 400
-  else extractParams fs q
+  if flatBlocked flat fs q then .error 400 else extractParams fs q
 
 /-- can `to_map` serialise a header struct with these members? -/
 def headersSerialisable : Fields → Bool
